@@ -91,6 +91,8 @@ type F struct {
 	escapeCache map[string]bool
 	// Summaries: extra facts for the false/true result of a module call (availability guards).
 	CallFacts func(call *ssa.Call, result bool) []Fact
+	// NonNeg: values that are non-negative by an invariant proved elsewhere (e.g. the writer's byte counter, C20-COUNT).
+	NonNeg func(v ssa.Value) bool
 }
 
 type Loop struct {
@@ -1028,6 +1030,18 @@ func (p *F) atomFacts(forms []Lin, known []Fact) ([]Fact, []condFact) {
 			if fb, fu := intBits(cv.X.Type()); fu && fb <= 32 {
 				if tb, _ := intBits(cv.Type()); tb > fb {
 					out = append(out, Fact{L: Atom(a), Why: "converted from unsigned"})
+				}
+			}
+		}
+		if p.NonNeg != nil && p.NonNeg(v) {
+			out = append(out, Fact{L: Atom(a), Why: "non-negative by an invariant established elsewhere"})
+		}
+		// Len() of library buffers
+		if cl, ok := v.(*ssa.Call); ok {
+			if cal := cl.Call.StaticCallee(); cal != nil && cal.Name() == "Len" && cal.Signature.Recv() != nil {
+				rt := cal.Signature.Recv().Type().String()
+				if strings.HasSuffix(rt, "bytes.Buffer") || strings.HasSuffix(rt, "bytebufferpool.ByteBuffer") || strings.HasSuffix(rt, "bytes.Reader") {
+					out = append(out, Fact{L: Atom(a), Why: "Len() >= 0"})
 				}
 			}
 		}
